@@ -309,12 +309,29 @@ func VerifHarness_C07_FallbackFiltered() {
 		cmds = append(cmds, mk("zqx"+string(rune('a'+i)), "mm", []string{"windows"}, false))
 	}
 	cmds = append(cmds, mk("nn | zzqqxx", "oo pp", []string{"linux"}, true))
+	cmds = append(cmds, mk("zzqx tool", "rr", []string{"cross-platform"}, false))
 	db := &Database{Commands: cmds}
 	db.BuildUniversalIndex()
 	o := SearchOptions{Limit: verifIntRange("limit", 1, 2), UseFuzzy: true, FuzzyThreshold: 0}
 	o.PipelineOnly = verifBool("pipelineOnly")
 	o.AllPlatforms = verifBool("allPlatforms")
+	if verifBool("searchedBefore") {
+		// an earlier fallback search on the same database with the other cross-platform setting
+		prev := o
+		prev.NoCrossPlatform = true
+		_ = db.SearchUniversal("zqx", prev)
+	}
 	res := db.SearchUniversal("zqx", o)
+	crossSeen := false
+	for _, r := range res {
+		if r.Command == &db.Commands[5] {
+			crossSeen = true
+		}
+	}
+	if o.Limit >= 2 && !o.PipelineOnly && !o.AllPlatforms {
+		// eligible here: the linux pipeline command and the cross-platform entry — both fit
+		verifAssert(crossSeen, "C07: a query occurring in order in some eligible command is never left without that result (cross-platform entry, limit allows)")
+	}
 	for _, r := range res {
 		verifAssert(c04Eligible(r.Command, o), "C07: fallback results pass the platform and pipeline filters")
 		verifAssert(c07Subseq("zqx", r.Command.Command+" "+r.Command.Description), "C07: every fallback result contains the query's characters in order")
